@@ -49,6 +49,10 @@ def seg_dft(x, starts, L, win, w, order):
     """X_k for all segments; returns complex longdouble array (K,)."""
     x = np.asarray(x, dtype=LD)
     starts = np.asarray(starts, dtype=np.int64)
+    if starts.size * L > (1 << 23):     # very large bins: the same computation over blocks of segments (memory)
+        blk = max(1, (1 << 22) // L)
+        parts = [seg_dft(x, starts[i:i + blk], L, win, w, order) for i in range(0, starts.size, blk)]
+        return np.concatenate([p[0] for p in parts]), np.concatenate([p[1] for p in parts])
     idx = starts[:, None] + np.arange(L)[None, :]
     segs = detrend_rows(x[idx], order)
     n = np.arange(L, dtype=LD)
@@ -102,7 +106,7 @@ def m2_tolerance(m2ref, txy, K):
     return 2.0 * d * float(np.sqrt(max(m2ref, 0.0))) + d * d + 16.0 * (K + 2) * U64 * abs(m2ref) + 1e-300
 
 
-def tolerances(x, y, starts, L, win, safety=1.0, m2ref=None):
+def tolerances(x, y, starts, L, win, safety=1.0, m2ref=None, omega=None):
     """Derived error bound of a *correct* float64 implementation.
 
     The per-segment value is produced by a Goertzel-type second-order recurrence
@@ -125,6 +129,12 @@ def tolerances(x, y, starts, L, win, safety=1.0, m2ref=None):
     Sx = 2.0 * sw * ax
     Sy = 2.0 * sw * ay
     rel = 64.0 * U64 * (L + 4) ** 2 * safety
+    if omega is not None:
+        # frequency-aware form, used for long segments only (where the L^2 worst case would swamp the estimates): the
+        # recurrence propagates each rounding error with a gain of at most min(L, 1/|sin w|), and the partial sums are
+        # bounded by sum|v| times the same gain; (L+4)^2 is kept as the cap, so this is never looser than the form above
+        s2 = float(np.sin(omega)) ** 2
+        rel = 64.0 * U64 * (L + 4) * min(L + 4.0, 1.0 / max(s2, 1e-300)) * safety
     dX = rel * Sx
     dY = rel * Sy
     tiny = 1e-300
